@@ -18,7 +18,7 @@ META = dict(
                 'per-line amplifier bands and optional unidirectional lines; bit-precise fp-lemmas (z3 + cvc5, QF_BVFP) for '
                 'frequency_to_n / nvalue_to_frequency / slots_to_m / mvalue_to_slots translated from the current source',
     bounds=['slot numbers within [-3, 3] (quick) / [-6, 6] (thorough) around 193.1 THz for the maps (network range, 1-2 amplifier bands per OMS, C-only / L-only / '
-            'C+L / narrower)', '3 ROADM sites, lines present or absent per direction', 'fp-lemmas: |n| <= 4096, 1 <= m <= 512, binary64'],
+            'C+L / narrower)', '3 ROADM sites, lines present or absent per direction (Edfa lines, spliced lines, Multiband_amplifier lines)', 'fp-lemmas: |n| <= 4096, 1 <= m <= 512, binary64'],
     assumptions=['frequencies are on the 6.25 GHz grid (band edges given as slot numbers), float rounding of the index conversions '
                  'covered by the fp-lemmas', 'amplifier bands of one element do not overlap'],
     stubs=[],
